@@ -2130,6 +2130,9 @@ func (self *LockDB) Lock(serverProtocol ServerProtocol, command *protocol.LockCo
 				lockManager.glock.Unlock()
 				_ = serverProtocol.ProcessLockResultCommand(command, protocol.RESULT_LOCKED_ERROR, uint16(lockManager.locked), currentLock.locked, lockData)
 				_ = serverProtocol.FreeLockCommand(currentLockCommand)
+				if lockManager.waited {
+					self.wakeUpWaitLocks(lockManager, serverProtocol)
+				}
 				return nil
 			}
 			if currentLock.locked < 0xff && currentLock.locked <= command.Rcount && command.TimeoutFlag&protocol.TIMEOUT_FLAG_RCOUNT_IS_PRIORITY == 0 {
@@ -2174,6 +2177,9 @@ func (self *LockDB) Lock(serverProtocol ServerProtocol, command *protocol.LockCo
 
 				_ = serverProtocol.ProcessLockResultCommand(command, protocol.RESULT_SUCCED, uint16(lockManager.locked), currentLock.locked, lockData)
 				_ = serverProtocol.FreeLockCommand(currentLockCommand)
+				if lockManager.waited {
+					self.wakeUpWaitLocks(lockManager, serverProtocol)
+				}
 				return nil
 			}
 
